@@ -480,6 +480,15 @@ example : (do let root ← runRows {} exRawFields [exRawRow]; pure (dec root) : 
     (do let lv ← interpRow {} exRawFields exRawRow; pure [lv]) ∧
     (interpRow {} exRawFields exRawRow).isOk = true := by decide +kernel
 
+/-- why `covered` excludes dictionaries with other value types (behaviour confirmed on the crate, notes/C01.md): `build_builder`
+ACCEPTS `Dictionary(Int8, Int32)`, every scalar is forwarded to the value builder as a string and an `Int32` builder refuses
+strings — while `Spec.interpScalar` still answers with the string: the specification clause for dictionaries is only right
+for Utf8 / LargeUtf8 values -/
+example : (newDT "$.d" (.dictionary .int8 .int32) false []).isOk = true ∧
+    (do let b ← newDT "$.d" (.dictionary .int8 .int32) false []; push {} b (.int .i32 1) : R B).isErr = true ∧
+    interpDT {} (.dictionary .int8 .int32) false [] (.int .i32 1) = .ok (.str [49]) ∧
+    covered (.dictionary .int8 .int32) = false := by decide +kernel
+
 /-- R3 hypotheses are satisfiable with a nested, nullable schema: covered, safe, and rows in two presentations -/
 example : [Field.mk "a" (.struct (.cons (.mk "x" .int8 true []) (.cons (.mk "y" .utf8 false []) .nil))) true []].all coveredF = true := by
   decide
